@@ -78,6 +78,16 @@ CHECKS.update({
         ref='3/C04'),
 })
 
+CHECKS.update({
+    'C11': dict(
+        technique='property-based testing of generated query scenarios in the simulator; oracle = ResponderModel + routing rules over the independently decoded trace',
+        text=SIM + 'one measured query (QU/QM mix, probe, legacy or mDNS port, v4/v6, listen or respond socket) arrives at a generated offset or on the '
+             '{-2..+2} ms grid around a quarter of a record TTL after its last perceived multicast; destination, socket, id, echoed questions, flush bits and '
+             'unicast-vs-multicast choice of every reply are checked, plus header/flush/group/all-sockets format of every multicast of the run.',
+        note='sighting = the host\'s own perception via a spy listener; PTR-floor interval is don\'t-care; additionals are C03\'s subject',
+        ref='3/C11'),
+})
+
 NOT_YET = {
 }
 
